@@ -301,7 +301,19 @@ type cmap4Iter struct {
 }
 
 func (it *cmap4Iter) Next() bool {
-	return it.pos1 < len(it.data)
+	// skip the entries of a glyph index array equal to 0 :
+	// they mean 'missing glyph' (see Lookup)
+	for it.pos1 < len(it.data) {
+		entry := it.data[it.pos1]
+		if entry.indexes == nil || entry.indexes[it.pos2] != 0 {
+			return true
+		}
+		if it.pos2++; it.pos2 == len(entry.indexes) {
+			it.pos2 = 0
+			it.pos1++
+		}
+	}
+	return false
 }
 
 func (it *cmap4Iter) Char() (r rune, gy GID) {
@@ -318,10 +330,8 @@ func (it *cmap4Iter) Char() (r rune, gy GID) {
 		}
 	} else { // pos2 is the array index
 		r = rune(it.pos2) + rune(entry.start)
-		gy = GID(entry.indexes[it.pos2])
-		if gy != 0 {
-			gy = GID(uint16(gy) + entry.delta) // modulo 65536, as in Lookup
-		}
+		// Next has skipped the zero entries ; the sum is modulo 65536, as in Lookup
+		gy = GID(uint16(entry.indexes[it.pos2]) + entry.delta)
 		if it.pos2 == len(entry.indexes)-1 {
 			// we have read the last glyph in this part
 			it.pos2 = 0
@@ -730,13 +740,29 @@ func (cm cmap4) RuneRanges(dst [][2]rune) [][2]rune {
 		dst = make([][2]rune, 0, len(cm))
 	}
 	dst = dst[:0]
-	for _, e := range cm {
-		start, end := rune(e.start), rune(e.end)
+	add := func(start, end rune) {
 		if L := len(dst); L != 0 && dst[L-1][1] == start {
 			// grow the previous range
 			dst[L-1][1] = end
 		} else {
 			dst = append(dst, [2]rune{start, end})
+		}
+	}
+	for _, e := range cm {
+		if e.indexes == nil {
+			add(rune(e.start), rune(e.end))
+			continue
+		}
+		// glyph index array : only the runs of non zero entries are mapped
+		for i, L := 0, len(e.indexes); i < L; i++ {
+			if e.indexes[i] == 0 {
+				continue
+			}
+			runStart := i
+			for i+1 < L && e.indexes[i+1] != 0 {
+				i++
+			}
+			add(rune(e.start)+rune(runStart), rune(e.start)+rune(i))
 		}
 	}
 	return dst
